@@ -17,10 +17,14 @@ type Monitor[C Conn] struct {
 	lastActivity atomic.Value
 	duration     time.Duration
 	onInactive   OnInactiveFunc[C]
+	onActivity   func()
 }
 
 func (m *Monitor[C]) Notify() {
 	m.lastActivity.Store(time.Now())
+	if m.onActivity != nil {
+		m.onActivity()
+	}
 }
 
 func (m *Monitor[C]) LastActivity() time.Time {
@@ -39,6 +43,19 @@ func New[C Conn](duration time.Duration, onInactive OnInactiveFunc[C]) *Monitor[
 	m := &Monitor[C]{
 		duration:   duration,
 		onInactive: onInactive,
+	}
+	m.Notify()
+	return m
+}
+
+// NewWithKeepAlive creates a monitor that drives keepAlive on inactivity. Every received
+// message (Notify) also resets the keep-alive failure count: a connection that has just
+// received traffic has no unanswered pings against it.
+func NewWithKeepAlive[C Conn](duration time.Duration, keepAlive *KeepAlive[C]) *Monitor[C] {
+	m := &Monitor[C]{
+		duration:   duration,
+		onInactive: keepAlive.OnInactive,
+		onActivity: keepAlive.resetFails,
 	}
 	m.Notify()
 	return m
